@@ -88,6 +88,33 @@ theorem lookup_after_roundtrip (ps : List TProp) (h : accepted ps = true) (k : B
 def sample : List TProp :=
   [ ⟨[0x4B], some [0x3D, 0x00, 0xFF]⟩, ⟨[0x6B], some []⟩, ⟨[0x62], none⟩, ⟨[0x61], some []⟩ ]
 
+/-- **The getters agree with the list and keep "no value" apart from "empty value" and from
+    "no such key"** (`get`, `get_property_val`, `get_property_val_str`; compared with the real
+    getters by the op `txt-getters`): all three answer for the first property whose key equals the
+    wanted one case-insensitively; the string getter answers `none` exactly when the key is absent -
+    a key without a value is present and reads as the empty string. -/
+theorem getters_spec (ps : List TProp) (k : BList) :
+    (getVal ps k = none ↔ lookup ps k = none) ∧
+    (getValStr ps k = none ↔ lookup ps k = none) ∧
+    (∀ p, lookup ps k = some p → getVal ps k = some p.val ∧ getValStr ps k = some (p.val.getD [])) ∧
+    (∀ p, lookup ps k = some p → p.val = none → getVal ps k = some none ∧ getValStr ps k = some []) := by
+  unfold getVal getValStr
+  refine ⟨?_, ?_, ?_, ?_⟩
+  · cases lookup ps k <;> simp
+  · cases lookup ps k <;> simp
+  · intro p h; simp [h]
+  · intro p h hv; simp [h, hv]
+
+/-- ... and after the trip to the browser: the getters on what is decoded from the encoding of an
+    accepted list answer as on the list itself. -/
+theorem getters_after_roundtrip (ps : List TProp) (h : accepted ps = true) (k : BList) :
+    ∃ b, create ps = .ok b ∧ ∃ ds, decodeTxtUnique b = .ok ds ∧
+      getVal ds k = getVal ps k ∧ getValStr ds k = getValStr ps k := by
+  obtain ⟨b, hb, hd⟩ := txt_roundtrip ps h
+  exact ⟨b, hb, dedupCI ps, hd, by unfold getVal; rw [lookup_ci], by unfold getValStr; rw [lookup_ci]⟩
+
+example : getValStr sample [0x62] = some [] ∧ getVal sample [0x62] = some none ∧ getValStr sample [0x7A] = none := by decide
+
 example : accepted sample = true := by decide
 example : dedupCI sample = [⟨[0x4B], some [0x3D, 0x00, 0xFF]⟩, ⟨[0x62], none⟩, ⟨[0x61], some []⟩] := by
   decide
